@@ -30,14 +30,15 @@ impl Sub for Extended {
                 ..DictParams::default()
             },
             with_user: true,
-            with_mapping: false,
+            with_mapping: true,
             space_only_if_exclusive: false,
             ..TokCaseParams::default()
         };
         tok_case(p).prop_filter("needs a user lexicon", |c| c.user.is_some()).boxed()
     }
     fn rule(&self) -> String {
-        "DictSpec + user rows (homographs of system words, longer/shorter overlaps, extreme costs); D+U versus D' built from system rows ++ U rows: \
+        "DictSpec + user rows (homographs of system words, longer/shorter overlaps, extreme costs), in half of the cases on an id-mapped dictionary (user lexicon loaded before one mapping, before two successive mappings, \
+         or after the mapping; the same mappings applied to D'); D+U versus D' built from system rows ++ U rows: \
          per-position candidate multisets equal after erasing (lexicon type, word id), every node's prefix minimum and the EOS optimum equal, \
          tokens from U report LexType::User and U's feature/ids/cost, token sequences equal when the reference optimum is unique; \
          non-trivial = a user row is on the reported path or is a losing candidate; distinct = hash(files, user rows, options, sentence)".into()
@@ -53,9 +54,30 @@ impl Sub for Extended {
         let rd = RefDict::new(&case.spec, user);
         ctx.label(case.spec.conn.kind());
         type K = (usize, usize, usize, bool, u16, u16, i32, u32);
+        // id-mapping history (the same mappings on both sides): none / [user, map] / [user, map, map] / [map, user]
+        let hist = case.opts.first().map_or(0, |o| o.history) % 3;
+        let (ops_u, ops_e, pl, pr): (Vec<DOp>, Vec<DOp>, Vec<u16>, Vec<u16>) = match &case.mapping {
+            None => (vec![DOp::LoadUser(user.to_vec())], vec![], (0..rd.conn.num_left as u16).collect(), (0..rd.conn.num_right as u16).collect()),
+            Some((l, r)) => {
+                let m = DOp::Map(l.clone(), r.clone());
+                let (ln, rn) = (crate::props::common::new_ids(l), crate::props::common::new_ids(r));
+                let twice = |v: &Vec<u16>| -> Vec<u16> { v.iter().map(|&x| v[usize::from(x)]).collect() };
+                match hist {
+                    0 => (vec![DOp::LoadUser(user.to_vec()), m.clone()], vec![m], ln, rn),
+                    1 => (vec![DOp::LoadUser(user.to_vec()), m.clone(), m.clone()], vec![m.clone(), m], twice(&ln), twice(&rn)),
+                    _ => (vec![m.clone(), DOp::LoadUser(user.to_vec())], vec![m], ln, rn),
+                }
+            }
+        };
+        ctx.label(match (&case.mapping, hist) {
+            (None, _) => "unmapped",
+            (_, 0) => "user_then_map",
+            (_, 1) => "user_then_map_map",
+            _ => "map_then_user",
+        });
         for o in &case.opts {
-            let du = crate::refmodel::make_tokenizer_h(build_case_dict(&files, Some(user), None, false)?, o.ignore_space, o.max_grouping_len, o.history)?;
-            let de = crate::refmodel::make_tokenizer_h(build_case_dict(&files_ext, None, None, false)?, o.ignore_space, o.max_grouping_len, o.history)?;
+            let du = crate::refmodel::make_tokenizer_h(apply_all(build_case_dict(&files, None, None, false)?, &ops_u)?, o.ignore_space, o.max_grouping_len, o.history)?;
+            let de = crate::refmodel::make_tokenizer_h(apply_all(build_case_dict(&files_ext, None, None, false)?, &ops_e)?, o.ignore_space, o.max_grouping_len, o.history)?;
             let mut wu = du.new_worker();
             let mut we = de.new_worker();
             for s in &case.sentences {
@@ -107,7 +129,7 @@ impl Sub for Extended {
                     if t.lex_type == 1 {
                         user_on_path = true;
                         let row = user.get(t.word_id as usize).ok_or("user token with an out-of-range word id")?;
-                        if row.surface != t.surface || row.feature != t.feature || row.cost != t.word_cost || row.left != t.left_id || row.right != t.right_id {
+                        if row.surface != t.surface || row.feature != t.feature || row.cost != t.word_cost || pl[usize::from(row.left)] != t.left_id || pr[usize::from(row.right)] != t.right_id {
                             return Err(format!("sentence {s:?}: user token {t:?} does not carry the data of user row {row:?}"));
                         }
                     }
